@@ -114,8 +114,14 @@ theorem accumulators_per_call : ∀ s ∈ creationSites, s.perCall = true := by 
 /-- reads of randomness / clock / stack / environment / directory order are of the classified kinds -/
 theorem nondeterminism_sources_benign : ∀ s ∈ nondetSites, s.kind.benign = true := by decide +kernel
 
+/-- `options.jobs` is read by the driver (`check_all`) and on the start-up path (`main`) only — never by a check: this is
+    why the job count is a separate argument of `CliState.checkAll` and the per-file program cannot depend on it -/
+theorem jobs_option_read_by_driver_only : ∀ r ∈ sharedReads, r.1 = "jobs" → r.2.2 ≠ "perFile" := by decide +kernel
+
 /-! Non-vacuity of the pins: the inventories are populated, and contain the sites the property's anchors name
 (by role / kind, not by identifier) -/
+example : (sharedReads.filter (fun r => r.1 == "jobs")).length ≥ 1 ∧ (sharedReads.filter (fun r => r.2.2 == "perFile")).length ≥ 3 := by
+  decide +kernel
 example : stateSites.length ≥ 100 ∧ iterSites.length ≥ 60 ∧ mutSites.length ≥ 100 := by decide +kernel
 example : (stateSites.filter (fun s => s.kind == .pureCache)).length ≥ 1
     ∧ (stateSites.filter (fun s => s.kind == .patchAtStartup)).length ≥ 10
